@@ -15,10 +15,51 @@ PLAIN_OF = {'ekern': 'kern', 'bekern': 'bkern', 'aekern': 'akern'}
 PREFIX = {'kern': '', 'ekern': 'e', 'bkern': 'b', 'bekern': 'be', 'akern': 'a', 'aekern': 'ae'}
 
 
+# The public ways to the same import.  Every check reads its documents through loads() below, which takes them in turn: what a
+# property says about "an imported document" does not depend on which of the documented doors the text came in through.
+LOAD_ROUTES = ('loads', 'loads(raise_on_errors=False)', 'Importer().import_string', 'loads(raise_on_errors=True)', 'create [deprecated]',
+               'Generic.create')
+_route_seen = {}
+route_counts = {}
+
+
+def _load_by(route, text):
+    if route == 'loads':
+        return kp.loads(text)
+    if route == 'loads(raise_on_errors=False)':
+        return kp.loads(text, raise_on_errors=False)
+    if route == 'Importer().import_string':
+        imp = kp.Importer()
+        doc = imp.import_string(text)
+        return doc, imp.errors
+    if route == 'loads(raise_on_errors=True)':
+        try:
+            return kp.loads(text, raise_on_errors=True)
+        except ValueError:
+            raise
+        except Exception:  # noqa - the text has grammar errors (that is what this door refuses): take the lenient door for it
+            return kp.loads(text)
+    if route == 'create [deprecated]':
+        import warnings
+        with warnings.catch_warnings():
+            warnings.simplefilter('ignore')
+            return kp.create(text)
+    from kernpy.core.generic import Generic
+    return Generic.create(content=text, strict=False)
+
+
 def loads(text):
     """-> (doc, errors, exception)"""
+    # a function of the text and of how often this process has imported it (so a replay takes the same door, and two imports of
+    # one text take different ones)
+    import zlib
+    h = zlib.crc32(text.encode('utf-8', 'surrogatepass')) if isinstance(text, str) else 0
+    n = _route_seen.get(h, 0)
+    _route_seen[h] = n + 1
+    route = LOAD_ROUTES[(h + n) % len(LOAD_ROUTES)]
+    route_counts[route] = route_counts.get(route, 0) + 1
     try:
-        doc, errs = kp.loads(text)
+        doc, errs = _load_by(route, text)
         return doc, errs, None
     except Exception as e:  # noqa
         return None, None, e
